@@ -1,3 +1,4 @@
+use core::cell::Cell;
 use core::sync::atomic::AtomicU64;
 use core::{fmt, slice};
 
@@ -11,7 +12,8 @@ use crate::{Class, Classing, Error, Policy, PolicyFn, TreeStats};
 use crate::{TREE_FRAMES, TreeId};
 
 pub struct Locals<'a> {
-    buffer: &'a mut [u8],
+    /// The local slots are atomics that are modified through shared references
+    buffer: &'a [Cell<u8>],
     /// Local reservations for each class
     classes: [Option<OffsetSlice<Local>>; 1 << Class::BITS],
 }
@@ -34,7 +36,7 @@ impl<'a> Locals<'a> {
     }
     pub unsafe fn metadata(&mut self) -> &'a mut [u8] {
         // Lifetime hack: internal buffer outlives instance!
-        unsafe { slice::from_raw_parts_mut(self.buffer.as_mut_ptr(), self.buffer.len()) }
+        unsafe { slice::from_raw_parts_mut(self.buffer.as_ptr().cast_mut().cast(), self.buffer.len()) }
     }
 
     /// Initialize the locals from a buffer
@@ -52,6 +54,7 @@ impl<'a> Locals<'a> {
             offset += size_of_slice::<Local>(count);
             classes[class.0 as usize] = Some(local);
         }
+        let buffer = Cell::from_mut(buffer).as_slice_of_cells();
         Ok(Self { buffer, classes })
     }
 
